@@ -147,7 +147,8 @@ func TestC14Stress(t *testing.T) {
 						e := led.Make(i, dst, size)
 						buf := append([]byte{}, e.Data...)
 						tctx, cf := context.WithTimeout(ctx, 200*time.Millisecond)
-						if err := nd.S.Tell(tctx, locals[dst], p2p.IOVec{buf}); err != nil {
+						if err := nd.S.Tell(tctx, locals[dst], p2p.IOVec{buf}); p2p.IsErrMTUExceeded(err) {
+							// only a refusal for size rules out delivery; a deadline or a closing swarm does not
 							led.Refuse(e)
 						}
 						cf()
@@ -204,7 +205,8 @@ func TestC14Stress(t *testing.T) {
 			for j := i + 1; j < nNodes; j++ {
 				e := led.Make(i, j, 24)
 				wctx, wcf := context.WithTimeout(ctx, 3*time.Second)
-				if err := w.Nodes[i].S.Tell(wctx, locals[j], p2p.IOVec{append([]byte{}, e.Data...)}); err != nil {
+				if err := w.Nodes[i].S.Tell(wctx, locals[j], p2p.IOVec{append([]byte{}, e.Data...)}); p2p.IsErrMTUExceeded(err) {
+					// only a refusal for size rules out delivery; a deadline or a closing swarm does not
 					led.Refuse(e)
 				}
 				wcf()
